@@ -89,7 +89,7 @@ def run(ctx):
                   [dict(name=p[0], cfg=p[1], group="all", sim=p[2], depth=p[3]) for p in parts], "histories",
                   lambda x: dict(text=x["obs"].get("text"), wins=x.get("wins"),
                                  conds=[st.get("cond") for st in x["obs"].get("steps", [])]),
-                  tzs=(("America/New_York", 4, 1), ("America/Los_Angeles@utc0", 8, 2)))
+                  tzs=(("America/New_York", 4, 3), ("America/Los_Angeles@utc0", 8, 6)))
     ctx.coverage_extra["exhaustive_parts"] = [p[0] for p in parts if not p[2]]
     ctx.coverage_extra["sampled_parts"] = [p[0] for p in parts if p[2] and p[2] != "M"]
     ctx.coverage_extra["model_only_parts"] = [p[0] for p in parts if p[2] == "M"]
